@@ -10,6 +10,12 @@ OBLIGATIONS = memtable_obls("a") + (get_obls("b", 0, ((2, 0, 0, 1, 2, 1), (1, 1,
 # return it): every member of a commit group that is told OK has its updates in the group record
 OBLIGATIONS += write_obls("w", quick=((0, 1, 0, -1),), thorough=((0, 2, 0, 1), (1, 1, 0, -1)))
 
+# c: the compaction drop rule preserves every read at every live snapshot and at the present
+# (real ldb_do_compaction_work: shadowed entries and obsolete tombstones only)
+from obl.dbimpl_compact import compaction_obls
+_c = compaction_obls("c")
+OBLIGATIONS += [o for o in _c if o.tier == "quick"][2:] + [o for o in _c if o.tier != "quick"]
+
 META = {
     "level": "model_checking",
     "level_text": "Bounded model checking (CBMC) of the real lookup mechanisms that make a read return the latest write: ldb_version_get (level-0 newest-first, deeper levels by binary search, tombstones hide older values, snapshot bound) over a symbolic multi-level version against the reference 'newest entry <= snapshot over all entries of all files'; further mechanisms (memtable get, compaction drop rule, flush placement, boundary inputs) are added as separate obligations as they are built.",
